@@ -1,8 +1,9 @@
 #!/bin/sh
-# tools/seedsall.sh -- runs every stored sub-agent seed against its property's quick check (generated search only,
-# regression replays off) and prints one line per seed: CAUGHT / MISSED / PATCH-FAILED
+# tools/seedsall.sh [glob] -- runs every stored sub-agent seed (or those matching seeded/<glob>) against its
+# property's quick check (generated search only, regression replays off) and prints one line per seed:
+# CAUGHT / MISSED / PATCH-FAILED
 cd "$(dirname "$0")/.."
-for d in seeded/*/; do
+for d in seeded/${1:-*}/; do
   name=$(basename $d); prop=$(echo $name | cut -c1-3)
   out=$(VERIF_NO_REGRESS=1 tools/seedrun.sh $name $prop quick 2>&1)
   if echo "$out" | grep -q "^VIOLATION property=$prop"; then echo "CAUGHT $name $(echo "$out" | grep -a '  signature' | head -1 | cut -c1-140)";
